@@ -1,7 +1,7 @@
 import os
 from . import core, apicheck
 
-RULE = ("all strings of length <= L over the 14-class alphabet of C10 (L = 3 quick, 4 thorough) plus seeded random long strings "
+RULE = ("all strings of length <= L over the 14-class alphabet of C10 (L = 4 quick, 5 thorough) plus seeded random long strings "
         "with runs of quotes; for every string every builder style of toml_write (keys: unquoted, literal, basic_pretty, basic, "
         "default; values: literal, ml_literal, basic_pretty, ml_basic_pretty, basic, ml_basic, default), ToTomlKey/ToTomlValue for "
         "str, toml_edit::Key/Value Display and toml::Value Display; TLC decodes every offered token with TomlLex in the "
@@ -12,7 +12,7 @@ RULE = ("all strings of length <= L over the 14-class alphabet of C10 (L = 3 qui
 def run(ctx):
     h = ctx.build(features=("preserve_order",))
     evp = ctx.path("quote.ev")
-    L, nrand = (3, 2000) if ctx.quick else (4, 50000)
+    L, nrand = (4, 2000) if ctx.quick else (5, 50000)
     ctx.harness(h, ["quote-events", "--maxlen", L, "--random", nrand, "--seed", ctx.seed, "--out", evp])
     toks = 0
     refused = 0
